@@ -13,7 +13,7 @@ if [ ! -s $d/patch.diff ] && [ -d /tmp/seed/$name/wt ]; then
 fi
 git -C /repo apply $d/patch.diff || { echo "patch does not apply"; exit 2; }
 for p in "$@"; do
-  /verif/check $p > $d/check-$p.out 2>&1; echo "check $p exit $?" | tee -a $d/check-$p.out
+  GOVC_NO_EVIDENCE=1 /verif/check $p > $d/check-$p.out 2>&1; echo "check $p exit $?" | tee -a $d/check-$p.out
   grep -E "^VIOLATION|^KNOWN" $d/check-$p.out | cut -c1-260
 done
 git -C /repo checkout -- .
